@@ -54,7 +54,7 @@ func genKeys(rng *vrt.Rand, n int) [][]byte {
 		case rng.Chance(0.08):
 			// binary key with varint-looking bytes
 			k = []byte{0x80, 0xff, byte(i), 0x01, 0x00, 0x96}
-		case rng.Chance(0.04):
+		case rng.Chance(0.04) || (zeroTailRun && rng.Chance(0.25)):
 			// a key that extends an earlier key (prefix of another), by the smallest usable byte, a digit or 0xff.
 			// No key ends in a zero byte: a tombstone or an empty-valued record then ends in it, and a store through
 			// a memory mapping is recovered by diffing against the zero model, to which a trailing zero is invisible
@@ -63,6 +63,15 @@ func genKeys(rng *vrt.Rand, n int) [][]byte {
 				k = append(append([]byte{}, keys[rng.Intn(i)]...), []byte{0x01, '0', 0xff}[rng.Intn(3)])
 			} else {
 				k = []byte{0x00, 0x01}
+			}
+			if zeroTailRun {
+				// standard I/O throughout: the model is exact, so a key may end in a zero byte after all (its
+				// tombstone and its empty-valued record then end in it)
+				if i > 0 && rng.Chance(0.5) {
+					k = append(append([]byte{}, keys[rng.Intn(i)]...), 0x00)
+				} else {
+					k = []byte{0x00}
+				}
 			}
 		case rng.Chance(0.01):
 			// a key longer than the two-byte varint range
@@ -1589,8 +1598,8 @@ func withZeroTail(prop string, share float64) {
 		zeroTailRun = rng.Chance(share)
 		defer func() { zeroTailRun = false }()
 		g := gen(c, rng, tier)
-		if zeroTailRun && c.Arm == "seq" {
-			c.ZeroTail = true
+		if zeroTailRun {
+			c.ZeroTail = true // whatever arm the generator chose: every Open of the run is forced to standard I/O
 			c.Cfg.IO = 0
 		}
 		return g
